@@ -18,6 +18,7 @@ pub mod c15;
 pub mod c16;
 pub mod c17;
 pub mod c18;
+pub mod c19;
 pub mod c20;
 
 pub const TABLE: &[(&str, fn(&mut Ctx))] = &[
@@ -39,6 +40,7 @@ pub const TABLE: &[(&str, fn(&mut Ctx))] = &[
 	("C16", c16::run),
 	("C17", c17::run),
 	("C18", c18::run),
+	("C19", c19::run),
 	("C20", c20::run),
 ];
 
